@@ -204,9 +204,17 @@ class Runner:
             names = [op["rule"], op["input"]] + list(op.get("macros") or [])
         elif op["op"] == "cli":
             names = [a for a in op["argv"] if not a.startswith("-")]
+            for a in op["argv"]:
+                if a.startswith("--") and "=" in a:
+                    names.append(a.split("=", 1)[1])
+                elif len(a) > 2 and a[:2] in ("-p", "-s", "-b"):
+                    names.append(a[2:])
+            lib = op.get("_lib") or {}
+            names += [lib.get("rule"), lib.get("input")] + list(lib.get("macros") or [])
+            names = [n for n in names if n]
         else:
             names = []
-        return sorted(set(names))
+        return sorted({os.path.normpath(n) for n in names})
 
     def reference(self, op, seed: int = 0):
         """Outcome of `op` performed first in a pristine process on the directory as it is now.
